@@ -12,6 +12,26 @@ NOTE_COMMON = ("Trusted base: go/packages + go/types type-check of /repo's worki
 
 # id -> (technique, level text, level note, design ref)
 CLAIMS = {
+    "C05": (
+        "CFG path classification of the HTTP write handlers (every return after a proposal passes the nil-error edge of the commit call, an error answer or the leader hand-off), dominance in applyMessageWait, def-use of raft.NewRaft's store arguments",
+        "Partial: decides the 'acknowledge only after commit' clause for every write handler and every path, the 'commit = raft future ok and FSM response not an error' clause, "
+        "and that raft's log/stable/snapshot stores are the LevelDB/file stores under -raftdir with FSM.store being that log store. "
+        "Does NOT decide behaviour of raft + LevelDB under kills, fail-over and restarts (crash-point behaviour of third-party code).",
+        NOTE_COMMON + " Assumes hashicorp/raft and goleveldb honour their durability contracts.",
+        "DESIGN.md section 3, C05"),
+    "C07": (
+        "CFG ordering inside applyProto's deferred recover handler (mark -> re-encode -> durable store on nil-error edge -> terminate), who-calls / who-writes closures, purity of the tombstone arm",
+        "Partial: decides that a panic while applying is intercepted where it surfaces, that the process terminates only after the entry was marked, re-encoded and stored "
+        "into raft's own log store under the entry's index (store error also terminates), that no path swallows the panic, that the message-of-death arm only advances the duplicate marker, "
+        "and that nothing else ever marks entries or registers a panicking command. Restart/replay/snapshot interplay is crash-point behaviour and is not decided.",
+        NOTE_COMMON,
+        "DESIGN.md section 3, C07"),
+    "C10": (
+        "edge dominance of the duplicate test over every propose/forward site, def-use of the compared request field into the proposal, call ordering in the state machine arms, who-writes/who-reads of the marker field, codec coverage of the marker",
+        "Partial: decides the structure implementing the duplicate marker (short-cut dominates propose and forward, acknowledges without effect; marker recorded before processing and for tombstones; "
+        "single writer from the entry's ClientMessageId; marker and field survive snapshot and every log encoding). Whether a retry arrives after the first copy was applied on the handling replica is a schedule question and not decided.",
+        NOTE_COMMON,
+        "DESIGN.md section 3, C10"),
     "C03": (
         "field-coverage and correspondence analysis of the snapshot codec (go/types field lists x def-use of Marshal/Unmarshal), guard dominance for rebuilt indexes",
         "Structural completeness of the state snapshot, decided for every field by construction: each field of each replicated Go struct "
